@@ -3,7 +3,45 @@
 //! This module defines different strategies for evicting entries from the cache
 //! when it reaches capacity.
 
+#[cfg(not(feature = "verif-hooks"))]
 use std::collections::{HashMap, VecDeque};
+#[cfg(feature = "verif-hooks")]
+use {self::verif_map::HashMap, std::collections::VecDeque};
+
+/// `HashMap` with a fixed hasher, so that iteration order (the LFU victim among
+/// equal frequencies) is a function of the operation history only.
+#[cfg(feature = "verif-hooks")]
+mod verif_map {
+    use std::collections::hash_map::DefaultHasher;
+    use std::hash::BuildHasherDefault;
+    use std::ops::{Deref, DerefMut};
+
+    type Inner<K, V> = std::collections::HashMap<K, V, BuildHasherDefault<DefaultHasher>>;
+
+    pub(crate) struct HashMap<K, V>(Inner<K, V>);
+
+    impl<K, V> HashMap<K, V> {
+        pub(crate) fn with_capacity(capacity: usize) -> Self {
+            Self(Inner::with_capacity_and_hasher(
+                capacity,
+                BuildHasherDefault::default(),
+            ))
+        }
+    }
+
+    impl<K, V> Deref for HashMap<K, V> {
+        type Target = Inner<K, V>;
+        fn deref(&self) -> &Self::Target {
+            &self.0
+        }
+    }
+
+    impl<K, V> DerefMut for HashMap<K, V> {
+        fn deref_mut(&mut self) -> &mut Self::Target {
+            &mut self.0
+        }
+    }
+}
 use std::hash::Hash;
 use std::num::NonZeroUsize;
 
